@@ -11,7 +11,7 @@
 (* Every pair is emitted as a scenario - New, New, Equals both ways,       *)
 (* Equals with itself, Rebuild and Equals - and executed on the real code. *)
 (* Frames: one column A or B of type int / float / string / enum declared  *)
-(* (a, b) / enum declared (b, a), or the two-column frames (A, B), (B, A)  *)
+(* (a, b) / enum declared (b, a) / enum derived from the data, or the two-column frames (A, B), (B, A)  *)
 (* with an int or string column next to an int column; rows <= MaxR.       *)
 (***************************************************************************)
 EXTENDS IOSem, Json
@@ -19,13 +19,14 @@ EXTENDS IOSem, Json
 CONSTANTS MaxR, Emit
 
 A == <<65>>  B == <<66>>
-TypeTags == {"int", "float", "string", "enumAB", "enumBA"}
+TypeTags == {"int", "float", "string", "enumAB", "enumBA", "enumD"}
 CellsOf(t) == CASE t = "int" -> {IntCell(0), IntCell(1)}
                 [] t = "float" -> {NullCell, IntCell(0), <<0, 1, 2097152, 0, 0>>, <<0, 0, 3145728, 0, 0>>}   \* NaN, 0.0, -0.0, 1.0
                 [] OTHER -> {NullCell, MkCell(<<97>>), MkCell(<<98>>)}
 ColOf1(nm, t, cells) ==
   CASE t = "enumAB" -> MkCol(nm, "enum", cells, << <<97>>, <<98>> >>, TRUE)
     [] t = "enumBA" -> MkCol(nm, "enum", cells, << <<98>>, <<97>> >>, TRUE)
+    [] t = "enumD" -> MkCol(nm, "enum", cells, DerivedVals(cells), FALSE)     \* value table derived from the data: only the values present
     [] OTHER -> PlainCol(nm, t, cells)
 
 Single == {<<nm, t>> : nm \in {A, B}, t \in TypeTags}
@@ -54,7 +55,7 @@ Symmetric == stage = 1 => (EqualsSem(fa, fb) = EqualsSem(fb, fa))
 Transitive == stage = 1 => \A dc \in Descs : LET fc == FrameOf(dc) IN EqualsSem(fa, fb) /\ EqualsSem(fb, fc) => EqualsSem(fa, fc)
 \* equality goes by the described VALUES: same names in order, same exposed types, equal keys / both null
 ValEq(x, y) == (IsNull(x) /\ IsNull(y)) \/ (~IsNull(x) /\ ~IsNull(y) /\ KeyOf(x) = KeyOf(y))
-Exposed(t) == IF t \in {"enumAB", "enumBA"} THEN "enum" ELSE t
+Exposed(t) == IF t \in {"enumAB", "enumBA", "enumD"} THEN "enum" ELSE t
 ByValue == stage = 1 =>
   (EqualsSem(fa, fb) =
      (/\ Len(ta) = Len(tb)
@@ -69,8 +70,9 @@ DataOf(col) ==
   CASE col.tag = "int" -> [name |-> col.name, kind |-> "int", ints |-> [r \in 1..Len(col.cells) |-> SmallInt(col.cells[r])]]
     [] col.tag = "float" -> [name |-> col.name, kind |-> "float", floats |-> [r \in 1..Len(col.cells) |-> FloatTxt(col.cells[r])]]
     [] OTHER -> [name |-> col.name, kind |-> "string", strs |-> [r \in 1..Len(col.cells) |-> IF IsNull(col.cells[r]) THEN <<0>> ELSE KeyOf(col.cells[r])]]
-EnumsOf(d) == LET e == SelectSeq(d, LAMBDA c : c.tag \in {"enumAB", "enumBA"}) IN
-              [k \in 1..Len(e) |-> [name |-> e[k].name, vals |-> IF e[k].tag = "enumAB" THEN << <<97>>, <<98>> >> ELSE << <<98>>, <<97>> >>]]
+EnumsOf(d) == LET e == SelectSeq(d, LAMBDA c : c.tag \in {"enumAB", "enumBA", "enumD"}) IN
+              [k \in 1..Len(e) |-> [name |-> e[k].name, vals |-> IF e[k].tag = "enumAB" THEN << <<97>>, <<98>> >>
+                                                                  ELSE IF e[k].tag = "enumBA" THEN << <<98>>, <<97>> >> ELSE <<>>]]
 NewStep(d) == [op |-> "New", recv |-> -1, hasorder |-> TRUE, colorder |-> [k \in 1..Len(d) |-> d[k].name],
                hasenums |-> Len(EnumsOf(d)) > 0, enums |-> EnumsOf(d), data |-> [k \in 1..Len(d) |-> DataOf(d[k])]]
 EmitScn == (Emit /\ stage = 1) =>
